@@ -543,6 +543,25 @@ func wakeupRun(args []string) int {
 			}
 		}
 	}
+	// the call overlaps Start
+	duringStart := 0
+	for k := 0; k < 4; k++ {
+		for _, call := range []string{"schedule", "resume"} {
+			for _, restart := range []bool{false, true} {
+				v, ok := wuDuringStart(call, restart, time.Duration(3+r.Intn(8))*time.Millisecond)
+				if !ok {
+					setupFailures++
+					continue
+				}
+				duringStart++
+				dist["park"]["starting"]++
+				distinct["starting/"+call+"/"+fmt.Sprint(restart)] = true
+				if v != "" && len(viol) < 40 {
+					viol = append(viol, v)
+				}
+			}
+		}
+	}
 	if setupFailures > len(results)/10 {
 		viol = append(viol, fmt.Sprintf("C05 harness could not set up %d of %d scenarios (first: %s)", setupFailures, len(results), wuFirstSetup(results)))
 	}
@@ -557,8 +576,8 @@ func wakeupRun(args []string) int {
 	for i := 0; i < len(results) && len(samples) < 8; i += len(results)/8 + 1 {
 		samples = append(samples, results[i])
 	}
-	writeJSON(*out+"/stats.json", map[string]any{"seed": *seed, "evaluations": len(results), "distinct_nontrivial": len(distinct),
-		"distribution": dist, "violations": viol, "samples": samples, "latency_ms": map[string]float64{"p50": pct(0.5), "p99": pct(0.99), "max": pct(1)},
+	writeJSON(*out+"/stats.json", map[string]any{"seed": *seed, "evaluations": len(results) + duringStart, "distinct_nontrivial": len(distinct),
+		"distribution": dist, "violations": viol, "samples": samples, "during_start_scenarios": duringStart, "latency_ms": map[string]float64{"p50": pct(0.5), "p99": pct(0.99), "max": pct(1)},
 		"reruns": reruns, "setup_failures": setupFailures, "wall_s": time.Since(t0).Seconds(), "limit_ms": wuLimit.Milliseconds()})
 	fmt.Printf("wakeup: %d scenarios (%d distinct cells) in %.1fs, latency p50 %.2f ms p99 %.2f ms max %.2f ms, %d setup failures, %d violations\n",
 		len(results), len(distinct), time.Since(t0).Seconds(), pct(0.5), pct(0.99), pct(1), setupFailures, len(viol))
